@@ -109,11 +109,22 @@ FUNCS = {
         result=("record+", "mkMP", ("mu", "lambda_", "d", "ptarg", "cp", "cc", "ccov", "pthresh"),
                 ("nat", "nat", "T", "T", "T", "T", "T", "T"), "ptarg")),
 }
-ORDER = ["plain_computeParams", "plain_update_scalar", "active_computeParams", "mo_computeParams"]
+FUNCS["active_rank1_scalar"] = dict(
+    cls="StrategyActiveOnePlusLambda", method="_rank1update",
+    header="Definition gen_active_rank1_scalar (P : aparams (T:=T)) (s_psucc s_sigma v_p_succ : T) : T * T",
+    placeholder="active_rank1_scalar Op P s_psucc s_sigma v_p_succ",
+    inputs={"psucc": ("s_psucc", "T"), "sigma": ("s_sigma", "T"), "d": ("(ap_d P)", "T"), "ptarg": ("(ap_ptarg P)", "T"),
+            "cp": ("(ap_cp P)", "T"), "pthresh": ("(ap_pthresh P)", "T"), "cc": ("(ap_cc P)", "T"),
+            "ccovp": ("(ap_ccovp P)", "T"), "ccovn": ("(ap_ccovn P)", "T"), "beta": ("(ap_beta P)", "T"),
+            "cconst": ("(ap_cconst P)", "T"), "lambda_": ("(ap_lambda P)", "nat")},
+    scalars=("psucc", "sigma"), opaque=("parent", "pc", "A", "invA", "ancestors_fitness"),
+    supplied={}, dicts=(), params={"individual": None, "p_succ": ("v_p_succ", "T")},
+    result=("scalars", ("psucc", "sigma")))
+ORDER = ["plain_computeParams", "plain_update_scalar", "active_computeParams", "mo_computeParams", "active_rank1_scalar"]
 
 # module-level bindings the translation of sqrt / exp / numpy.* relies on
 MATH_NAMES = {"sqrt": "osqrt", "exp": "oexp"}
-PURE_CALLS = {"numpy.identity", "numpy.zeros", "numpy.array", "numpy.outer", "numpy.dot", "numpy.diag",
+PURE_CALLS = {"numpy.linalg.norm", "numpy.allclose", "hasattr", "numpy.identity", "numpy.zeros", "numpy.array", "numpy.outer", "numpy.dot", "numpy.diag",
               "numpy.flatnonzero", "numpy.linalg.cond", "numpy.linalg.cholesky", "numpy.sqrt", "copy.deepcopy",
               "sqrt", "exp", "len", "list", "range", "float"}
 PURE_NODES = (ast.BinOp, ast.UnaryOp, ast.Compare, ast.BoolOp, ast.Constant, ast.Name, ast.Attribute, ast.Subscript,
@@ -416,6 +427,10 @@ class Tr(object):
 
     def opaque_stmt(self, s):
         """a matrix-side statement: skipped if it cannot touch the scalar slice; otherwise refuse"""
+        if isinstance(s, ast.Expr) and isinstance(s.value, ast.Call) and isinstance(s.value.func, ast.Attribute) \
+                and s.value.func.attr in ("append", "pop") and self.is_opaque_target(s.value.func.value) \
+                and not s.value.keywords and all(pure(a) for a in s.value.args):
+            return          # list.append / list.pop on a matrix-side attribute (a plain list by the signature table)
         if isinstance(s, ast.Assign):
             tgts, val = s.targets, s.value
         elif isinstance(s, ast.AugAssign):
@@ -600,12 +615,17 @@ class Tr(object):
 
     def if_opaque(self, s, depth):
         """an `if` over matrix-side statements: only its test belongs to the slice"""
-        c, t = self.ex(s.test)
-        self.flush(s)
-        if t != "bool":
-            refuse(s, "condition of type %s" % t)
-        self.tests.append((depth, "t_%d" % (len(self.tests) + 1)))
-        self.bind(self.tests[-1][1], c)
+        if self.spec["result"][0] == "scalars":
+            # the result carries no branch tests: the test only has to be free of side effects
+            if not pure(s.test):
+                refuse(s.test, "test of a matrix-side branch is not in the side-effect-free whitelist")
+        else:
+            c, t = self.ex(s.test)
+            self.flush(s)
+            if t != "bool":
+                refuse(s, "condition of type %s" % t)
+            self.tests.append((depth, "t_%d" % (len(self.tests) + 1)))
+            self.bind(self.tests[-1][1], c)
         for blk in (s.body, s.orelse):
             for x in blk:
                 if isinstance(x, ast.If):
@@ -668,6 +688,14 @@ class Tr(object):
                 c, ta = self.attrs[r[4]]
                 out = "(%s, %s)" % (out, self.toT(c, ta, node))
             return out
+        if r[0] == "scalars":
+            vals = []
+            for a in r[1]:
+                if a not in self.assigned:
+                    refuse(node, "self.%s is never assigned" % a)
+                c, ta = self.attrs[a]
+                vals.append(self.toT(c, ta, node))
+            return "(%s)" % ", ".join(vals)
         if r[0] == "update":
             vals = []
             for a in r[1]:
